@@ -94,5 +94,67 @@ func ZZ_C17_noninterference() {
 		rt.Assert(rt.StrsEq(v, v0), "result-independent-of-map-order:list")
 	}
 	rt.MapOrder(0)
+	// Natively (replay under the race detector) the operation runs in 8 goroutines at once on
+	// the shared objects and every call must return what it returned alone; the engine runs
+	// this block once.
+	rt.Concurrently(8, func() {
+		for it := 0; it < rt.Iterations(25); it++ {
+			s, b, v := zzOp(op, tmpl, full)
+			rt.Assert(rt.StrEq(s, s0), "concurrent-call-returns-its-own-result:string")
+			rt.Assert(rt.BytesEq(b, b0), "concurrent-call-returns-its-own-result:bytes")
+			rt.Assert(rt.StrsEq(v, v0), "concurrent-call-returns-its-own-result:list")
+		}
+	})
+	rt.Reach("end")
+}
+
+// ZZ_C17_results: results handed to one caller are not shared with the next call: after a
+// caller edits the slices it got back, the same call returns the original result again.
+func ZZ_C17_results() {
+	which := rt.Param("which")
+	tmpl, full := zzSharedObjects()
+	switch which {
+	case 0:
+		text := tmpl.String() + "\nS1F2\n."
+		m1, e1, w1 := Parse(text)
+		rt.Assert(len(m1) == 2 && len(e1) == 0, "results:parse-ok")
+		s0, s1 := m1[0].String(), m1[1].String()
+		nw := len(w1)
+		m1[0], m1[1] = m1[1], nil
+		for i := range w1 {
+			w1[i] = "edited"
+		}
+		m2, _, w2 := Parse(text)
+		rt.Assert(len(m2) == 2, "results:second-parse-message-count")
+		rt.Assert(m2[0] != nil && m2[1] != nil, "results:second-parse-not-aliased")
+		if m2[0] != nil && m2[1] != nil {
+			rt.Assert(rt.StrEq(m2[0].String(), s0), "results:second-parse-first-message")
+			rt.Assert(rt.StrEq(m2[1].String(), s1), "results:second-parse-second-message")
+		}
+		rt.Assert(len(w2) == nw, "results:second-parse-warning-count")
+		for i := range w2 {
+			rt.Assert(w2[i] != "edited", "results:second-parse-warnings-not-aliased")
+		}
+	case 1:
+		in := full.ToBytes()
+		a, ok := hsms.Parse(in)
+		rt.Assert(ok, "results:decode-ok")
+		ab := a.ToBytes()
+		ab[5] ^= 0xff
+		b, ok2 := hsms.Parse(in)
+		rt.Assert(ok2, "results:second-decode-ok")
+		rt.Assert(rt.BytesEq(b.ToBytes(), in), "results:second-decode-unaffected")
+	case 2:
+		v1 := tmpl.Variables()
+		want := append([]string{}, v1...)
+		for i := range v1 {
+			v1[i] = "x"
+		}
+		rt.Assert(rt.StrsEq(tmpl.Variables(), want), "results:variables-unaffected")
+		b1 := full.ToBytes()
+		wantB := append([]byte{}, b1...)
+		b1[6] ^= 0xff
+		rt.Assert(rt.BytesEq(full.ToBytes(), wantB), "results:bytes-unaffected")
+	}
 	rt.Reach("end")
 }
